@@ -192,6 +192,33 @@ def deref_expr(prog, fn, expr):
     # values bound by tuple unpacking (``a, b = f()``) are not definitions of the single names
     unpacked_values = {id(v_) for t_, v_, s_, k_ in iter_stores(fn.node) if (k_.startswith("assign[") or k_.startswith("for")) and v_ is not None and not isinstance(v_, (ast.Tuple, ast.List))}
 
+    local_stores = {}
+    for t_, v_, s_, k_ in iter_stores(fn.node):
+        if isinstance(t_, ast.Name):
+            local_stores[t_.id] = local_stores.get(t_.id, 0) + 1
+
+    def _stale(d) -> bool:
+        """the defining expression d reads a local that is re-bound between the definition and the use: the local that
+        holds d's value is a snapshot (``given = plb is not None`` ... ``plb = default`` ... ``if given:``), not d"""
+        st = d
+        while st is not None and not isinstance(st, ast.stmt):
+            st = prog.parent(st)
+        if st is None:
+            return False
+        for n_ in ast.walk(d):
+            if isinstance(n_, ast.Name) and isinstance(n_.ctx, ast.Load) and local_stores.get(n_.id, 0) > 1:
+                r_def = {id(x) for x in reaching_assignments(prog, fn, n_.id, st)}
+                r_use = {id(x) for x in reaching_assignments(prog, fn, n_.id, expr)}
+                if r_def != r_use:
+                    return True
+            elif isinstance(n_, ast.Name) and isinstance(n_.ctx, ast.Load) and local_stores.get(n_.id, 0) == 1 and n_.id in getattr(fn, "params", []):
+                # a parameter with one later store: the value at the definition may be the argument, at the use the store
+                r_def = {id(x) for x in reaching_assignments(prog, fn, n_.id, st)}
+                r_use = {id(x) for x in reaching_assignments(prog, fn, n_.id, expr)}
+                if r_def != r_use:
+                    return True
+        return False
+
     class D(ast.NodeTransformer):
         def __init__(self):
             self.depth = 0
@@ -221,7 +248,7 @@ def deref_expr(prog, fn, expr):
         def visit_Name(self, node):
             if isinstance(node.ctx, ast.Load) and self.depth < 4 and node.id not in mutated:
                 defs = reaching_assignments(prog, fn, node.id, expr)
-                if len(defs) == 1 and defs[0] is not None and not isinstance(defs[0], ast.Name) and id(defs[0]) not in unpacked_values:
+                if len(defs) == 1 and defs[0] is not None and not isinstance(defs[0], ast.Name) and id(defs[0]) not in unpacked_values and not _stale(defs[0]):
                     self.depth += 1
                     try:
                         return self.visit(copy.deepcopy(defs[0]))
